@@ -1,7 +1,7 @@
 (* Proofs about Model/Bf.v (package bf): nnf, shape of the NNF, the
    definitional CNF (both directions), Unique, Solve and the DIMACS export. *)
 From Coq Require Import List ZArith NArith Bool String Ascii Arith Lia DecimalString
-     DecimalN Permutation.
+     DecimalN Permutation Sorted.
 From GS Require Import Spec.Base Spec.PB Spec.Solver Model.Bf.
 Import ListNotations.
 Open Scope Z_scope.
@@ -1192,4 +1192,1574 @@ Proof.
   - exists e. simpl in *. split; [|split; [|exact C]].
     + unfold mlen, nvars, tbl_len in L. lia.
     + apply S. rewrite nnf_eval. exact Hev.
+Qed.
+(* ------------------------------------------------------------------ *)
+(* Unique: integer square root, size of the grid.                       *)
+
+Open Scope nat_scope.
+
+
+Lemma isqrt_spec : forall n, isqrt n * isqrt n <= n < (isqrt n + 1) * (isqrt n + 1).
+Proof.
+  intros n. unfold isqrt. pose proof (N.sqrt_spec (N.of_nat n) (N.le_0_l _)) as H.
+  set (s := N.sqrt (N.of_nat n)) in *.
+  destruct H as [H1 H2].
+  assert (E1 : N.to_nat (s * s) = N.to_nat s * N.to_nat s) by apply N2Nat.inj_mul.
+  assert (E2 : N.to_nat (N.succ s * N.succ s) = (N.to_nat s + 1) * (N.to_nat s + 1)).
+  { rewrite N2Nat.inj_mul, N2Nat.inj_succ. lia. }
+  rewrite <- E1, <- E2. lia.
+Qed.
+
+Lemma nb_cols_pos : forall n, 1 <= n -> 1 <= nb_cols n.
+Proof.
+  intros n H. unfold nb_cols. pose proof (isqrt_spec n) as Hs.
+  generalize dependent (isqrt n). intros k Hs.
+  destruct (Nat.eqb_spec n (k * k)) as [E|E]; [|lia].
+  destruct k; [simpl in E; lia|lia].
+Qed.
+
+Lemma grid_covers : forall n, n <= nb_lines n * nb_cols n.
+Proof.
+  intros n. unfold nb_lines, nb_cols. pose proof (isqrt_spec n) as Hs.
+  generalize dependent (isqrt n). intros k Hs.
+  destruct (Nat.leb_spec n (k * k + k)) as [E1|E1];
+  destruct (Nat.eqb_spec n (k * k)) as [E2|E2].
+  - lia.
+  - rewrite Nat.mul_succ_r. lia.
+  - lia.
+  - replace (S k) with (k + 1) by lia. lia.
+Qed.
+
+Lemma nb_lines_lt : forall n, 5 <= n -> nb_lines n < n.
+Proof.
+  intros n H. unfold nb_lines. pose proof (isqrt_spec n) as Hs.
+  generalize dependent (isqrt n). intros k Hs.
+  destruct (Nat.leb_spec n (k * k + k)) as [E1|E1].
+  - destruct k as [|[|k]]; [lia|lia|]. nia.
+  - destruct k as [|[|k]]; [lia|lia|]. nia.
+Qed.
+
+Lemma nb_cols_lt : forall n, 5 <= n -> nb_cols n < n.
+Proof.
+  intros n H. unfold nb_cols. pose proof (isqrt_spec n) as Hs.
+  generalize dependent (isqrt n). intros k Hs.
+  destruct (Nat.eqb_spec n (k * k)) as [E2|E2].
+  - destruct k as [|[|[|k]]]; [lia|lia|lia|]. nia.
+  - destruct k as [|[|k]]; [lia|lia|]. nia.
+Qed.
+
+(* ------------------------------------------------------------------ *)
+(* Unique: exactly one cell of a grid iff exactly one line and exactly  *)
+(* one column.                                                          *)
+
+
+Lemma count_true_zero : forall l,
+  count_true l = 0 <-> forall q, q < List.length l -> nth q l false = false.
+Proof.
+  induction l as [|b l IH]; simpl.
+  - split; [intros _ q Hq; lia|reflexivity].
+  - split.
+    + intros H q Hq. destruct b; [discriminate|]. destruct q; [reflexivity|].
+      apply IH; [exact H|lia].
+    + intros H. pose proof (H 0 ltac:(lia)) as H0. simpl in H0. subst b. simpl.
+      apply IH. intros q Hq. apply (H (S q)). lia.
+Qed.
+
+Lemma exactly_one_iff : forall l,
+  exactly_one l = true <->
+  exists p, p < List.length l /\ nth p l false = true /\
+            forall q, q < List.length l -> nth q l false = true -> q = p.
+Proof.
+  unfold exactly_one. induction l as [|b l IH].
+  - simpl. split; [discriminate|]. intros [p [Hp _]]. lia.
+  - cbn [count_true List.length]. destruct b.
+    + replace (1 + count_true l =? 1) with (count_true l =? 0)
+        by (destruct (count_true l); reflexivity).
+      rewrite Nat.eqb_eq, count_true_zero. split.
+      * intros H. exists 0. split; [lia|split; [reflexivity|]].
+        intros q Hq Hn. destruct q; [reflexivity|]. simpl in Hn.
+        rewrite H in Hn by lia. discriminate.
+      * intros [p [Hp [Hn Hu]]] q Hq.
+        assert (p = 0) by (symmetry; apply Hu; [lia|reflexivity]). subst p.
+        destruct (nth q l false) eqn:E; [|reflexivity].
+        assert (S q = 0) by (apply Hu; [lia|exact E]). discriminate.
+    + cbn [Nat.add]. rewrite IH. split.
+      * intros [p [Hp [Hn Hu]]]. exists (S p). split; [lia|split; [exact Hn|]].
+        intros q Hq Hq'. destruct q; [discriminate|]. f_equal. apply Hu; [lia|exact Hq'].
+      * intros [p [Hp [Hn Hu]]]. destruct p; [discriminate|]. exists p.
+        split; [lia|split; [exact Hn|]]. intros q Hq Hq'.
+        assert (S q = S p) by (apply Hu; [lia|exact Hq']). lia.
+Qed.
+
+Lemma existsb_select {A} : forall (P : nat -> bool) (g : A -> bool) (d : A) l s,
+  existsb g (select P s l) = true <->
+  exists p, p < List.length l /\ P (s + p) = true /\ g (nth p l d) = true.
+Proof.
+  intros P g d. induction l as [|x l IH]; intros s; simpl.
+  - split; [discriminate|]. intros [p [Hp _]]. lia.
+  - destruct (P s) eqn:Ps.
+    + simpl. rewrite orb_true_iff, IH. split.
+      * intros [H|[p [Hp [HP Hg]]]].
+        -- exists 0. rewrite Nat.add_0_r. split; [lia|auto].
+        -- exists (S p). rewrite Nat.add_succ_r. split; [lia|auto].
+      * intros [p [Hp [HP Hg]]]. destruct p; [left; exact Hg|right].
+        exists p. rewrite Nat.add_succ_r in HP. split; [lia|auto].
+    + rewrite IH. split.
+      * intros [p [Hp [HP Hg]]]. exists (S p). rewrite Nat.add_succ_r. split; [lia|auto].
+      * intros [p [Hp [HP Hg]]]. destruct p.
+        -- rewrite Nat.add_0_r in HP. congruence.
+        -- exists p. rewrite Nat.add_succ_r in HP. split; [lia|auto].
+Qed.
+
+Lemma nth_map_seq {A} : forall (f : nat -> A) d n i, i < n -> nth i (map f (seq 0 n)) d = f i.
+Proof.
+  intros f d n i H. rewrite (nth_indep _ d (f 0)) by (rewrite map_length, seq_length; exact H).
+  rewrite map_nth. rewrite seq_nth by exact H. reflexivity.
+Qed.
+
+Lemma nth_map_env : forall (env : var -> bool) (d : var) vars p, p < List.length vars ->
+  nth p (map env vars) false = env (nth p vars d).
+Proof.
+  intros env d vars p H. rewrite (nth_indep _ false (env d)) by (rewrite map_length; exact H).
+  apply map_nth.
+Qed.
+
+(* the grid: exactly one line and exactly one column iff exactly one cell *)
+Lemma grid_exactly_one : forall (env : var -> bool) vars r c,
+  1 <= c -> List.length vars <= r * c ->
+  exactly_one (map (fun i => existsb env (select (fun p => p / c =? i) 0 vars)) (seq 0 r)) &&
+  exactly_one (map (fun j => existsb env (select (fun p => p mod c =? j) 0 vars)) (seq 0 c))
+  = exactly_one (map env vars).
+Proof.
+  intros env vars r c Hc Hn. set (d := pb_var EmptyString). set (n := List.length vars) in *.
+  assert (HL : forall i, existsb env (select (fun p => p / c =? i) 0 vars) = true <->
+                         exists p, p < n /\ p / c = i /\ env (nth p vars d) = true).
+  { intros i. rewrite (existsb_select _ _ d). simpl. split; intros [p [H1 [H2 H3]]]; exists p;
+      (split; [exact H1|split; [|exact H3]]); [apply Nat.eqb_eq|apply Nat.eqb_eq]; exact H2. }
+  assert (HC : forall j, existsb env (select (fun p => p mod c =? j) 0 vars) = true <->
+                         exists p, p < n /\ p mod c = j /\ env (nth p vars d) = true).
+  { intros j. rewrite (existsb_select _ _ d). simpl. split; intros [p [H1 [H2 H3]]]; exists p;
+      (split; [exact H1|split; [|exact H3]]); [apply Nat.eqb_eq|apply Nat.eqb_eq]; exact H2. }
+  assert (Hdiv : forall p, p < n -> p / c < r).
+  { intros p Hp. apply Nat.div_lt_upper_bound; [lia|]. nia. }
+  assert (Hmod : forall p, p mod c < c) by (intros p; apply Nat.mod_upper_bound; lia).
+  apply eq_true_iff_eq. rewrite andb_true_iff. rewrite !exactly_one_iff.
+  rewrite !map_length, !seq_length. fold n. split.
+  - intros [[I [HI [LI UI]]] [J [HJ [CJ UJ]]]].
+    rewrite nth_map_seq in LI by exact HI. rewrite nth_map_seq in CJ by exact HJ.
+    apply HL in LI. destruct LI as [p [Hp [HpI Ep]]].
+    assert (HpJ : p mod c = J).
+    { apply UJ; [apply Hmod|]. rewrite nth_map_seq by apply Hmod. apply HC. exists p. auto. }
+    exists p. split; [exact Hp|split].
+    + rewrite (nth_map_env env d) by exact Hp. exact Ep.
+    + intros q Hq Eq. rewrite (nth_map_env env d) in Eq by exact Hq.
+      assert (HqI : q / c = I).
+      { apply UI; [apply Hdiv; exact Hq|]. rewrite nth_map_seq by (apply Hdiv; exact Hq).
+        apply HL. exists q. auto. }
+      assert (HqJ : q mod c = J).
+      { apply UJ; [apply Hmod|]. rewrite nth_map_seq by apply Hmod. apply HC. exists q. auto. }
+      rewrite (Nat.div_mod q c) by lia. rewrite (Nat.div_mod p c) by lia. congruence.
+  - intros [p [Hp [Ep Up]]]. rewrite (nth_map_env env d) in Ep by exact Hp.
+    assert (Uq : forall q, q < n -> env (nth q vars d) = true -> q = p).
+    { intros q Hq Eq. apply Up; [exact Hq|]. rewrite (nth_map_env env d) by exact Hq. exact Eq. }
+    split.
+    + exists (p / c). split; [apply Hdiv; exact Hp|split].
+      * rewrite nth_map_seq by (apply Hdiv; exact Hp). apply HL. exists p. auto.
+      * intros i Hi Ei. rewrite nth_map_seq in Ei by exact Hi. apply HL in Ei.
+        destruct Ei as [q [Hq [Hqi Eq]]]. rewrite <- Hqi. f_equal. apply Uq; assumption.
+    + exists (p mod c). split; [apply Hmod|split].
+      * rewrite nth_map_seq by apply Hmod. apply HC. exists p. auto.
+      * intros j Hj Ej. rewrite nth_map_seq in Ej by exact Hj. apply HC in Ej.
+        destruct Ej as [q [Hq [Hqj Eq]]]. rewrite <- Hqj. f_equal. apply Uq; assumption.
+Qed.
+
+(* ------------------------------------------------------------------ *)
+(* Unique: semantics of uniqueSmall and uniqueRec.                      *)
+
+
+Lemma existsb_count : forall l, existsb (fun b : bool => b) l = (1 <=? count_true l).
+Proof.
+  induction l as [|b l IH]; simpl; [reflexivity|]. destruct b; simpl; [reflexivity|exact IH].
+Qed.
+
+Lemma none_count : forall (env : var -> bool) l,
+  forallb (fun w => negb (env w)) l = (count_true (map env l) =? 0).
+Proof.
+  induction l as [|w l IH]; simpl; [reflexivity|]. destruct (env w); simpl; [reflexivity|exact IH].
+Qed.
+
+Lemma pair_row : forall (env : var -> bool) v l,
+  forallb (fun w => eval env (FOr [FNot (FVar v); FNot (FVar w)])) l =
+  negb (env v) || forallb (fun w => negb (env w)) l.
+Proof.
+  intros env v. induction l as [|w l IH]; simpl.
+  - rewrite orb_true_r. reflexivity.
+  - simpl in IH. rewrite IH. destruct (env v), (env w); reflexivity.
+Qed.
+
+Lemma pairs_neg_count : forall (env : var -> bool) l,
+  forallb (eval env) (pairs_neg l) = (count_true (map env l) <=? 1).
+Proof.
+  induction l as [|v l IH]; [reflexivity|].
+  cbn [pairs_neg]. rewrite forallb_app, forallb_map, IH, pair_row, none_count.
+  cbn [map count_true].
+  destruct (env v); cbn [negb orb];
+    destruct (count_true (map env l)) as [|[|k]]; reflexivity.
+Qed.
+
+Lemma eval_unique_small : forall env vars,
+  eval env (unique_small vars) = exactly_one (map env vars).
+Proof.
+  intros env vars. unfold unique_small. cbn [eval forallb].
+  rewrite pairs_neg_count, existsb_map. cbn [eval].
+  assert (E : existsb env vars = (1 <=? count_true (map env vars))).
+  { rewrite <- existsb_count, existsb_map. reflexivity. }
+  change (fun x : var => env x) with env.
+  rewrite E. unfold exactly_one.
+  destruct (count_true (map env vars)) as [|[|k]]; reflexivity.
+Qed.
+
+Definition consistentb (env : var -> bool) (defs : list (var * list var)) : bool :=
+  forallb (fun e : var * list var => Bool.eqb (env (fst e)) (existsb env (snd e))) defs.
+
+Lemma eval_f_eq : forall env a b, eval env (f_eq a b) = Bool.eqb (eval env a) (eval env b).
+Proof. intros. simpl. destruct (eval env a), (eval env b); reflexivity. Qed.
+
+Lemma eval_grid_defs : forall env ds ms,
+  forallb (eval env) (grid_defs ds ms) = consistentb env (combine ds ms).
+Proof.
+  intros env. induction ds as [|d ds IH]; intros ms; [reflexivity|].
+  destruct ms as [|l ms]; [reflexivity|].
+  cbn [grid_defs combine forallb consistentb]. rewrite eval_f_eq. cbn [eval fst snd].
+  rewrite existsb_map. cbn [eval]. f_equal. apply IH.
+Qed.
+
+Lemma consistentb_app : forall env a b,
+  consistentb env (a ++ b) = consistentb env a && consistentb env b.
+Proof. intros. unfold consistentb. apply forallb_app. Qed.
+
+Lemma consistent_grid : forall env (mk : nat -> var) (sel : nat -> list var) s,
+  consistentb env (combine (map mk s) (map sel s)) = true ->
+  map env (map mk s) = map (fun i => existsb env (sel i)) s.
+Proof.
+  intros env mk sel. induction s as [|i s IH]; simpl; intros H; [reflexivity|].
+  apply andb_true_iff in H. destruct H as [H1 H2]. apply eqb_prop in H1.
+  rewrite H1, (IH H2). reflexivity.
+Qed.
+
+Lemma unique_rec_small : forall fuel vars, List.length vars <= 4 ->
+  unique_rec fuel vars = unique_small vars.
+Proof.
+  intros fuel vars H. destruct fuel; simpl;
+    destruct (List.length vars <=? 4) eqn:E; try reflexivity; apply Nat.leb_gt in E; lia.
+Qed.
+
+Lemma unique_defs_small : forall fuel vars, List.length vars <= 4 -> unique_defs fuel vars = [].
+Proof.
+  intros fuel vars H. destruct fuel; simpl;
+    destruct (List.length vars <=? 4) eqn:E; try reflexivity; apply Nat.leb_gt in E; lia.
+Qed.
+
+Lemma grid_vars_length : forall kind n full, List.length (grid_vars kind n full) = n.
+Proof. intros. unfold grid_vars. rewrite map_length, seq_length. reflexivity. Qed.
+
+Theorem eval_unique_rec : forall fuel vars env, List.length vars <= fuel ->
+  eval env (unique_rec fuel vars) =
+  consistentb env (unique_defs fuel vars) && exactly_one (map env vars).
+Proof.
+  induction fuel as [|k IH]; intros vars env Hf.
+  - rewrite unique_rec_small, unique_defs_small by lia. apply eval_unique_small.
+  - destruct (Nat.le_gt_cases (List.length vars) 4) as [Hs|Hb].
+    + rewrite unique_rec_small, unique_defs_small by lia. apply eval_unique_small.
+    + cbn [unique_rec unique_defs].
+      destruct (List.length vars <=? 4) eqn:E; [apply Nat.leb_le in E; lia|].
+      set (n := List.length vars) in *.
+      set (full := String.concat "-" (map vname vars)).
+      set (lines := grid_vars "line-" (nb_lines n) full).
+      set (cols := grid_vars "col-" (nb_cols n) full).
+      cbn [eval]. rewrite !forallb_app. cbn [forallb]. rewrite !eval_grid_defs.
+      rewrite !consistentb_app.
+      rewrite (IH lines env) by (unfold lines; rewrite grid_vars_length; pose proof (nb_lines_lt n); lia).
+      rewrite (IH cols env) by (unfold cols; rewrite grid_vars_length; pose proof (nb_cols_lt n); lia).
+      destruct (consistentb env (combine lines (lines_of vars (nb_lines n) (nb_cols n)))) eqn:C1;
+        [|reflexivity].
+      destruct (consistentb env (combine cols (cols_of vars (nb_cols n)))) eqn:C2;
+        [|reflexivity].
+      unfold lines, grid_vars, lines_of in C1. apply consistent_grid in C1.
+      unfold cols, grid_vars, cols_of in C2. apply consistent_grid in C2.
+      fold (grid_vars "line-" (nb_lines n) full) in C1. fold lines in C1.
+      fold (grid_vars "col-" (nb_cols n) full) in C2. fold cols in C2.
+      rewrite C1, C2.
+      assert (G := grid_exactly_one env vars (nb_lines n) (nb_cols n)
+                     (nb_cols_pos n ltac:(lia)) (grid_covers n)).
+      rewrite <- G.
+      cbn [andb].
+      destruct (consistentb env (unique_defs k lines)), (consistentb env (unique_defs k cols));
+        rewrite ?andb_true_r, ?andb_false_r; cbn [andb]; try reflexivity.
+Qed.
+
+(* ------------------------------------------------------------------ *)
+(* The public constructors: translation of the source formula.         *)
+
+
+Section SformInd.
+  Variable P : sform -> Prop.
+  Hypothesis HVar : forall s, P (SVar s).
+  Hypothesis HTrue : P STrue.
+  Hypothesis HFalse : P SFalse.
+  Hypothesis HNot : forall f, P f -> P (SNot f).
+  Hypothesis HAnd : forall l, Forall P l -> P (SAnd l).
+  Hypothesis HOr : forall l, Forall P l -> P (SOr l).
+  Hypothesis HImp : forall a b, P a -> P b -> P (SImplies a b).
+  Hypothesis HEq : forall a b, P a -> P b -> P (SEq a b).
+  Hypothesis HXor : forall a b, P a -> P b -> P (SXor a b).
+  Hypothesis HUnique : forall names, P (SUnique names).
+
+  Fixpoint sform_ind' (f : sform) : P f :=
+    match f with
+    | SVar s => HVar s
+    | STrue => HTrue
+    | SFalse => HFalse
+    | SNot g => HNot g (sform_ind' g)
+    | SAnd l => HAnd l ((fix go (l : list sform) : Forall P l :=
+                           match l with
+                           | [] => Forall_nil P
+                           | x :: r => Forall_cons x (sform_ind' x) (go r)
+                           end) l)
+    | SOr l => HOr l ((fix go (l : list sform) : Forall P l :=
+                         match l with
+                         | [] => Forall_nil P
+                         | x :: r => Forall_cons x (sform_ind' x) (go r)
+                         end) l)
+    | SImplies a b => HImp a b (sform_ind' a) (sform_ind' b)
+    | SEq a b => HEq a b (sform_ind' a) (sform_ind' b)
+    | SXor a b => HXor a b (sform_ind' a) (sform_ind' b)
+    | SUnique names => HUnique names
+    end.
+End SformInd.
+
+Lemma forallb_false_exists {A} (f : A -> bool) l :
+  forallb f l = false -> exists x, In x l /\ f x = false.
+Proof.
+  induction l as [|x l IH]; simpl; [discriminate|]. intros H.
+  destruct (f x) eqn:E.
+  - destruct (IH H) as [y [Hy Ey]]. exists y. auto.
+  - exists x. auto.
+Qed.
+
+Lemma forallb_false_intro {A} (f : A -> bool) l x :
+  In x l -> f x = false -> forallb f l = false.
+Proof.
+  intros Hx E. destruct (forallb f l) eqn:F; [|reflexivity].
+  rewrite forallb_forall in F. rewrite (F x Hx) in E. discriminate.
+Qed.
+
+Definition nm (env : var -> bool) (s : string) : bool := env (pb_var s).
+
+Lemma eval_f_implies : forall env a b, eval env (f_implies a b) = implb (eval env a) (eval env b).
+Proof. intros. simpl. destruct (eval env a), (eval env b); reflexivity. Qed.
+
+Lemma eval_f_xor : forall env a b, eval env (f_xor a b) = xorb (eval env a) (eval env b).
+Proof. intros. simpl. destruct (eval env a), (eval env b); reflexivity. Qed.
+
+Lemma eval_f_unique : forall env names,
+  eval env (f_unique names) =
+  consistentb env (unique_defs (List.length names) (map pb_var names))
+  && exactly_one (map (nm env) names).
+Proof.
+  intros env names. unfold f_unique. rewrite eval_unique_rec by (rewrite map_length; lia).
+  rewrite map_map. reflexivity.
+Qed.
+
+Lemma consistentb_flat_map {A} : forall env (h : A -> list (var * list var)) l,
+  consistentb env (flat_map h l) = forallb (fun x => consistentb env (h x)) l.
+Proof.
+  intros env h. induction l as [|x l IH]; simpl; [reflexivity|].
+  rewrite consistentb_app, IH. reflexivity.
+Qed.
+
+(* with dummies equal to the disjunction of their members, the translated
+   formula has the value of the source formula *)
+Lemma desugar_consistent : forall env s,
+  consistentb env (sdefs s) = true -> eval env (desugar s) = seval (nm env) s.
+Proof.
+  intros env. induction s as [n| | |g IH|l IH|l IH|a b IHa IHb|a b IHa IHb|a b IHa IHb|names]
+    using sform_ind'; intros C; cbn [sdefs] in C; cbn [desugar seval].
+  - reflexivity.
+  - reflexivity.
+  - reflexivity.
+  - cbn [eval]. rewrite IH by exact C. reflexivity.
+  - cbn [eval]. rewrite forallb_map. apply forallb_ext_Forall.
+    rewrite consistentb_flat_map in C. rewrite forallb_forall in C.
+    rewrite Forall_forall in *. intros x Hx. apply IH; auto.
+  - cbn [eval]. rewrite existsb_map. apply existsb_ext_Forall.
+    rewrite consistentb_flat_map in C. rewrite forallb_forall in C.
+    rewrite Forall_forall in *. intros x Hx. apply IH; auto.
+  - rewrite consistentb_app in C. apply andb_true_iff in C. destruct C as [Ca Cb].
+    rewrite eval_f_implies, IHa, IHb by assumption. reflexivity.
+  - rewrite consistentb_app in C. apply andb_true_iff in C. destruct C as [Ca Cb].
+    rewrite eval_f_eq, IHa, IHb by assumption. reflexivity.
+  - rewrite consistentb_app in C. apply andb_true_iff in C. destruct C as [Ca Cb].
+    rewrite eval_f_xor, IHa, IHb by assumption. reflexivity.
+  - rewrite eval_f_unique, C. reflexivity.
+Qed.
+
+(* polarity: a positive occurrence that is true is true in the source, a
+   negative one that is false is false in the source *)
+Lemma desugar_polar : forall env s,
+  (pos_unique true s = true -> eval env (desugar s) = true -> seval (nm env) s = true) /\
+  (pos_unique false s = true -> eval env (desugar s) = false -> seval (nm env) s = false).
+Proof.
+  intros env. induction s as [n| | |g IH|l IH|l IH|a b IHa IHb|a b IHa IHb|a b IHa IHb|names]
+    using sform_ind'; cbn [pos_unique desugar seval].
+  - split; intros _ H; exact H.
+  - split; intros _ H; exact H.
+  - split; intros _ H; exact H.
+  - destruct IH as [IHp IHn]. cbn [eval negb]. split; intros Hp H.
+    + rewrite IHn; auto. destruct (eval env (desugar g)); [discriminate|reflexivity].
+    + rewrite IHp; auto. destruct (eval env (desugar g)); [reflexivity|discriminate].
+  - cbn [eval]. rewrite forallb_map. split; intros Hp H.
+    + rewrite forallb_forall in *. rewrite Forall_forall in IH.
+      intros x Hx. apply (IH x Hx); auto.
+    + apply forallb_false_exists in H. destruct H as [x [Hx Ex]].
+      rewrite Forall_forall in IH. rewrite forallb_forall in Hp.
+      apply (forallb_false_intro _ _ x Hx). apply (IH x Hx); auto.
+  - cbn [eval]. rewrite existsb_map. split; intros Hp H.
+    + apply existsb_exists in H. destruct H as [x [Hx Ex]]. apply existsb_exists.
+      exists x. split; [exact Hx|]. rewrite Forall_forall in IH. rewrite forallb_forall in Hp.
+      apply (IH x Hx); auto.
+    + apply not_true_is_false. intros Hs. apply not_true_iff_false in H. apply H.
+      apply existsb_exists in Hs. destruct Hs as [x [Hx Ex]]. apply existsb_exists.
+      exists x. split; [exact Hx|]. rewrite Forall_forall in IH. rewrite forallb_forall in Hp.
+      destruct (eval env (desugar x)) eqn:E; [reflexivity|].
+      rewrite (proj2 (IH x Hx) (Hp x Hx) E) in Ex. discriminate.
+  - destruct IHa as [IHap IHan], IHb as [IHbp IHbn]. rewrite eval_f_implies. cbn [negb].
+    split; intros Hp H; apply andb_true_iff in Hp; destruct Hp as [Hpa Hpb].
+    + destruct (eval env (desugar a)) eqn:Ea.
+      * simpl in H. rewrite (IHbp Hpb H). apply implb_true_r.
+      * rewrite (IHan Hpa eq_refl). reflexivity.
+    + destruct (eval env (desugar a)) eqn:Ea; [|discriminate]. simpl in H.
+      rewrite (IHap Hpa eq_refl), (IHbn Hpb H). reflexivity.
+  - destruct IHa as [IHap IHan], IHb as [IHbp IHbn]. rewrite eval_f_eq.
+    assert (Both : pos_unique true a && pos_unique false a && pos_unique true b && pos_unique false b = true ->
+                   seval (nm env) a = eval env (desugar a) /\ seval (nm env) b = eval env (desugar b)).
+    { intros Hp. apply andb_true_iff in Hp. destruct Hp as [Hp H4].
+      apply andb_true_iff in Hp. destruct Hp as [Hp H3].
+      apply andb_true_iff in Hp. destruct Hp as [H1 H2]. split.
+      - destruct (eval env (desugar a)); auto.
+      - destruct (eval env (desugar b)); auto. }
+    split; intros Hp H; destruct (Both Hp) as [-> ->]; exact H.
+  - destruct IHa as [IHap IHan], IHb as [IHbp IHbn]. rewrite eval_f_xor.
+    assert (Both : pos_unique true a && pos_unique false a && pos_unique true b && pos_unique false b = true ->
+                   seval (nm env) a = eval env (desugar a) /\ seval (nm env) b = eval env (desugar b)).
+    { intros Hp. apply andb_true_iff in Hp. destruct Hp as [Hp H4].
+      apply andb_true_iff in Hp. destruct Hp as [Hp H3].
+      apply andb_true_iff in Hp. destruct Hp as [H1 H2]. split.
+      - destruct (eval env (desugar a)); auto.
+      - destruct (eval env (desugar b)); auto. }
+    split; intros Hp H; destruct (Both Hp) as [-> ->]; exact H.
+  - rewrite eval_f_unique. split; intros Hp H.
+    + apply andb_true_iff in H. apply H.
+    + simpl in Hp. apply Nat.leb_le in Hp.
+      rewrite unique_defs_small in H by (rewrite map_length; exact Hp). exact H.
+Qed.
+
+
+(* ---- the public constructors never produce a "dummy-k" name ---- *)
+
+Definition okv (v : var) : Prop := tseitin_name v = false.
+
+Lemma okv_pb : forall s, okv (pb_var s).
+Proof. intros s. reflexivity. Qed.
+
+Lemma okv_grid : forall kind i full, kind = "line-"%string \/ kind = "col-"%string ->
+  okv (dummy_var (grid_name kind i full)).
+Proof.
+  intros kind i full [-> | ->]; unfold okv, tseitin_name, dummy_var, grid_name; simpl;
+    reflexivity.
+Qed.
+
+Lemma in_select {A} : forall (P : nat -> bool) (l : list A) s x, In x (select P s l) -> In x l.
+Proof.
+  intros P. induction l as [|y l IH]; intros s x H; simpl in *; [exact H|].
+  destruct (P s); [destruct H as [H|H]; [left; exact H|]|]; right; eapply IH; exact H.
+Qed.
+
+Lemma fv_ok_var : forall v, okv v -> fv_ok (FVar v).
+Proof. intros v H w [<-|[]]. exact H. Qed.
+
+Lemma fv_ok_not : forall f, fv_ok f -> fv_ok (FNot f).
+Proof. intros f H. exact H. Qed.
+
+Lemma fv_ok_or_vars : forall l, Forall okv l -> fv_ok (FOr (map FVar l)).
+Proof.
+  intros l H. apply fv_ok_or_of. intros x Hx. apply in_map_iff in Hx.
+  destruct Hx as [v [<- Hv]]. apply fv_ok_var. rewrite Forall_forall in H. auto.
+Qed.
+
+Lemma fv_ok_f_eq : forall a b, fv_ok a -> fv_ok b -> fv_ok (f_eq a b).
+Proof.
+  intros a b Ha Hb. unfold f_eq. apply fv_ok_and_of. intros x [<-|[<-|[]]];
+    apply fv_ok_or_of; intros y [<-|[<-|[]]]; auto.
+Qed.
+
+Lemma fv_ok_f_implies : forall a b, fv_ok a -> fv_ok b -> fv_ok (f_implies a b).
+Proof.
+  intros a b Ha Hb. unfold f_implies. apply fv_ok_or_of; intros y [<-|[<-|[]]]; auto.
+Qed.
+
+Lemma fv_ok_f_xor : forall a b, fv_ok a -> fv_ok b -> fv_ok (f_xor a b).
+Proof.
+  intros a b Ha Hb. unfold f_xor. apply fv_ok_and_of. intros x [<-|[<-|[]]];
+    apply fv_ok_or_of; intros y [<-|[<-|[]]]; auto.
+Qed.
+
+Lemma fv_ok_pairs_neg : forall l, Forall okv l -> forall x, In x (pairs_neg l) -> fv_ok x.
+Proof.
+  induction l as [|v l IH]; intros H x Hx; [destruct Hx|].
+  inversion H as [|v' l' Hv Hl]; subst. cbn [pairs_neg] in Hx. apply in_app_or in Hx.
+  destruct Hx as [Hx|Hx]; [|apply IH; assumption].
+  apply in_map_iff in Hx. destruct Hx as [w [<- Hw]]. rewrite Forall_forall in Hl.
+  apply fv_ok_or_of. intros y [<-|[<-|[]]]; apply fv_ok_var; auto.
+Qed.
+
+Lemma fv_ok_unique_small : forall l, Forall okv l -> fv_ok (unique_small l).
+Proof.
+  intros l H. unfold unique_small. apply fv_ok_and_of. intros x [<-|Hx].
+  - apply fv_ok_or_vars. exact H.
+  - apply (fv_ok_pairs_neg l H x Hx).
+Qed.
+
+Lemma fv_ok_grid_defs : forall ds ms, Forall okv ds -> Forall (Forall okv) ms ->
+  forall x, In x (grid_defs ds ms) -> fv_ok x.
+Proof.
+  induction ds as [|d ds IH]; intros ms Hd Hm x Hx; [destruct Hx|].
+  destruct ms as [|l ms]; [destruct Hx|].
+  inversion Hd; subst. inversion Hm; subst. destruct Hx as [<-|Hx].
+  - apply fv_ok_f_eq; [apply fv_ok_var; assumption|apply fv_ok_or_vars; assumption].
+  - eapply IH; eauto.
+Qed.
+
+Lemma okv_grid_vars : forall kind n full, kind = "line-"%string \/ kind = "col-"%string ->
+  Forall okv (grid_vars kind n full).
+Proof.
+  intros kind n full Hk. apply Forall_forall. intros v Hv. unfold grid_vars in Hv.
+  apply in_map_iff in Hv. destruct Hv as [i [<- _]]. apply okv_grid. exact Hk.
+Qed.
+
+Lemma fv_ok_unique_rec : forall fuel vars, Forall okv vars -> fv_ok (unique_rec fuel vars).
+Proof.
+  induction fuel as [|k IH]; intros vars H; cbn [unique_rec];
+    destruct (List.length vars <=? 4); try (apply fv_ok_unique_small; exact H).
+  - intros v [].
+  - apply fv_ok_and_of. intros x Hx. apply in_app_or in Hx. destruct Hx as [Hx|Hx].
+    + eapply fv_ok_grid_defs; [| |exact Hx]; [apply okv_grid_vars; auto|].
+      apply Forall_forall. intros l Hl. unfold lines_of in Hl. apply in_map_iff in Hl.
+      destruct Hl as [i [<- _]]. apply Forall_forall. intros v Hv. apply in_select in Hv.
+      rewrite Forall_forall in H. auto.
+    + apply in_app_or in Hx. destruct Hx as [Hx|Hx].
+      * eapply fv_ok_grid_defs; [| |exact Hx]; [apply okv_grid_vars; auto|].
+        apply Forall_forall. intros l Hl. unfold cols_of in Hl. apply in_map_iff in Hl.
+        destruct Hl as [i [<- _]]. apply Forall_forall. intros v Hv. apply in_select in Hv.
+        rewrite Forall_forall in H. auto.
+      * destruct Hx as [<-|[<-|[]]]; apply IH; apply okv_grid_vars; auto.
+Qed.
+
+Theorem fv_ok_desugar : forall s, fv_ok (desugar s).
+Proof.
+  induction s as [n| | |g IH|l IH|l IH|a b IHa IHb|a b IHa IHb|a b IHa IHb|names]
+    using sform_ind'; cbn [desugar].
+  - apply fv_ok_var. apply okv_pb.
+  - intros v [].
+  - intros v [].
+  - exact IH.
+  - apply fv_ok_and_of. intros x Hx. apply in_map_iff in Hx. destruct Hx as [y [<- Hy]].
+    rewrite Forall_forall in IH. auto.
+  - apply fv_ok_or_of. intros x Hx. apply in_map_iff in Hx. destruct Hx as [y [<- Hy]].
+    rewrite Forall_forall in IH. auto.
+  - apply fv_ok_f_implies; assumption.
+  - apply fv_ok_f_eq; assumption.
+  - apply fv_ok_f_xor; assumption.
+  - unfold f_unique. apply fv_ok_unique_rec. apply Forall_forall. intros v Hv.
+    apply in_map_iff in Hv. destruct Hv as [n [<- _]]. apply okv_pb.
+Qed.
+
+(* ---- extension of an assignment of the names to the dummies ---- *)
+
+Definition upd (e : var -> bool) (d : var) (b : bool) : var -> bool :=
+  fun v => if var_eqb d v then b else e v.
+
+Fixpoint ext_env (e : var -> bool) (defs : list (var * list var)) : var -> bool :=
+  match defs with
+  | [] => e
+  | (d, l) :: rest => ext_env (upd e d (existsb e l)) rest
+  end.
+
+Lemma vars_eqb_eq : forall a b, vars_eqb a b = true -> a = b.
+Proof.
+  induction a as [|x a IH]; destruct b as [|y b]; simpl; intros H; try discriminate; [reflexivity|].
+  apply andb_true_iff in H. destruct H as [H1 H2]. apply var_eqb_eq in H1.
+  rewrite H1, (IH b H2). reflexivity.
+Qed.
+
+Lemma existsb_upd : forall e d b l, mem_var d l = false -> existsb (upd e d b) l = existsb e l.
+Proof.
+  intros e d b. induction l as [|x l IH]; simpl; intros H; [reflexivity|].
+  apply orb_false_iff in H. destruct H as [H1 H2]. unfold upd at 1. rewrite H1, (IH H2). reflexivity.
+Qed.
+
+Lemma ext_env_stable : forall rest e d l x,
+  e d = x -> existsb e l = x ->
+  (forall d' l', In (d', l') rest -> mem_var d' l = false /\ (d' = d -> l' = l)) ->
+  ext_env e rest d = x /\ existsb (ext_env e rest) l = x.
+Proof.
+  induction rest as [|[d' l'] rest IH]; intros e d l x Hd Hl Hr; simpl; [auto|].
+  destruct (Hr d' l' (or_introl eq_refl)) as [Hm Heq]. apply IH.
+  - unfold upd. destruct (var_eqb d' d) eqn:E; [|exact Hd].
+    apply var_eqb_eq in E. rewrite (Heq E). exact Hl.
+  - rewrite existsb_upd by exact Hm. exact Hl.
+  - intros d2 l2 H2. apply Hr. right. exact H2.
+Qed.
+
+Lemma ext_env_consistent : forall defs e,
+  good_defs defs = true -> consistentb (ext_env e defs) defs = true.
+Proof.
+  induction defs as [|[d l] rest IH]; intros e G; [reflexivity|].
+  cbn [good_defs] in G. apply andb_true_iff in G. destruct G as [G Gr].
+  apply andb_true_iff in G. destruct G as [G Gf].
+  apply andb_true_iff in G. destruct G as [Gd Gm]. apply negb_true_iff in Gm.
+  cbn [ext_env consistentb forallb fst snd]. apply andb_true_iff. split; [|apply IH; exact Gr].
+  set (x := existsb e l).
+  destruct (ext_env_stable rest (upd e d x) d l x) as [H1 H2].
+  - unfold upd. rewrite var_eqb_refl. reflexivity.
+  - rewrite existsb_upd by exact Gm. reflexivity.
+  - intros d' l' Hin. rewrite forallb_forall in Gf. specialize (Gf _ Hin). simpl in Gf.
+    apply andb_true_iff in Gf. destruct Gf as [Ga Gb]. apply negb_true_iff in Ga.
+    split; [exact Ga|]. intros ->. rewrite var_eqb_refl in Gb. apply vars_eqb_eq. exact Gb.
+  - rewrite H1, H2. apply eqb_reflx.
+Qed.
+
+Lemma ext_env_named : forall defs e v,
+  good_defs defs = true -> vdummy v = false -> ext_env e defs v = e v.
+Proof.
+  induction defs as [|[d l] rest IH]; intros e v G Hv; [reflexivity|].
+  cbn [good_defs] in G. apply andb_true_iff in G. destruct G as [G Gr].
+  apply andb_true_iff in G. destruct G as [G _].
+  apply andb_true_iff in G. destruct G as [Gd _].
+  cbn [ext_env]. rewrite IH by assumption. unfold upd.
+  destruct (var_eqb d v) eqn:E; [|reflexivity]. apply var_eqb_eq in E. subst. congruence.
+Qed.
+
+Lemma seval_ext : forall e1 e2 s, (forall n, e1 n = e2 n) -> seval e1 s = seval e2 s.
+Proof.
+  intros e1 e2 s H. induction s as [n| | |g IH|l IH|l IH|a b IHa IHb|a b IHa IHb|a b IHa IHb|names]
+    using sform_ind'; cbn [seval]; try reflexivity.
+  - apply H.
+  - rewrite IH. reflexivity.
+  - apply forallb_ext_Forall. exact IH.
+  - apply existsb_ext_Forall. exact IH.
+  - rewrite IHa, IHb. reflexivity.
+  - rewrite IHa, IHb. reflexivity.
+  - rewrite IHa, IHb. reflexivity.
+  - f_equal. apply map_ext. exact H.
+Qed.
+
+(* a satisfying assignment of the names extends to the dummies *)
+Lemma desugar_complete : forall s env, clash_free s = true -> seval env s = true ->
+  exists env', (forall n, env' (pb_var n) = env n) /\ eval env' (desugar s) = true.
+Proof.
+  intros s env G H. set (e0 := fun v : var => env (vname v)).
+  exists (ext_env e0 (sdefs s)).
+  assert (Hn : forall n, ext_env e0 (sdefs s) (pb_var n) = env n).
+  { intros n. rewrite ext_env_named by (exact G || reflexivity). reflexivity. }
+  split; [exact Hn|].
+  rewrite desugar_consistent by (apply ext_env_consistent; exact G).
+  rewrite <- H. apply seval_ext. intros n. unfold nm. apply Hn.
+Qed.
+
+Close Scope nat_scope.
+
+(* ------------------------------------------------------------------ *)
+(* Source level: the two directions, Solve.                             *)
+
+
+Theorem cnf_sound : forall s, positive_unique s = true -> forall m dflt,
+  sat_cnf m (c_clauses (as_cnf (desugar s))) = true ->
+  seval (names_of (as_cnf (desugar s)) m dflt) s = true.
+Proof.
+  intros s Hp m dflt S.
+  pose proof (cnf_sound_form (desugar s) (fv_ok_desugar s) m (fun v => dflt (vname v)) S) as H.
+  exact (proj1 (desugar_polar _ s) Hp H).
+Qed.
+
+Theorem cnf_complete : forall s, clash_free s = true -> forall env, seval env s = true ->
+  exists m, List.length m = List.length (v_all (c_vars (as_cnf (desugar s)))) /\
+            sat_cnf m (c_clauses (as_cnf (desugar s))) = true /\
+            forall n i, tbl_get (v_all (c_vars (as_cnf (desugar s)))) (pb_var n) = Some i ->
+                        var_val m i = env n.
+Proof.
+  intros s G env H. destruct (desugar_complete s env G H) as [env' [Hn He]].
+  destruct (cnf_complete_form (desugar s) (fv_ok_desugar s) env' He) as [m [L [S C]]].
+  exists m. split; [exact L|split; [exact S|]]. intros n i Gi.
+  rewrite (C _ _ Gi eq_refl). apply Hn.
+Qed.
+
+(* ---- Solve ---- *)
+
+Lemma nodup_str_NoDup : forall l, nodup_str l = true -> NoDup l.
+Proof.
+  induction l as [|x l IH]; simpl; intros H; [constructor|].
+  apply andb_true_iff in H. destruct H as [H1 H2]. constructor; [|apply IH; exact H2].
+  intros Hin. apply negb_true_iff in H1.
+  assert (E : existsb (String.eqb x) l = true).
+  { apply existsb_exists. exists x. split; [exact Hin|apply String.eqb_refl]. }
+  congruence.
+Qed.
+
+Lemma assoc_mp : forall (m : list bool) (pb : table) v i,
+  NoDup (map (fun e : var * Z => vname (fst e)) pb) -> In (v, i) pb ->
+  assoc_str (map (fun e : var * Z => (vname (fst e), var_val m (snd e))) pb) (vname v)
+  = Some (var_val m i).
+Proof.
+  intros m. induction pb as [|[w j] pb IH]; intros v i ND H; [destruct H|].
+  simpl in ND. inversion ND as [|x xs Hx Hxs]; subst. simpl.
+  destruct H as [H|H].
+  - injection H as -> ->. rewrite String.eqb_refl. reflexivity.
+  - destruct (String.eqb (vname w) (vname v)) eqn:E.
+    + apply String.eqb_eq in E. exfalso. apply Hx. rewrite E.
+      apply in_map_iff. exists (v, i). auto.
+    + apply IH; assumption.
+Qed.
+
+Lemma names_of_complete : forall f m dflt, fv_ok f -> names_distinct f = true ->
+  let c := as_cnf f in
+  let mp := map (fun e : var * Z => (vname (fst e), var_val m (snd e))) (v_pb (c_vars c)) in
+  forall n, names_of c m (complete mp dflt) n = complete mp dflt n.
+Proof.
+  intros f m dflt Hf Hn c mp n. unfold names_of, env_of, env_tbl.
+  destruct (tbl_get (v_all (c_vars c)) (pb_var n)) as [i|] eqn:G; [|reflexivity].
+  destruct (as_cnf_struct f Hf) as [W _]. fold c in W.
+  assert (Gp : tbl_get (v_pb (c_vars c)) (pb_var n) = Some i) by (rewrite pb_get; auto).
+  apply tbl_get_in in Gp. unfold complete at 1.
+  unfold names_distinct in Hn. apply nodup_str_NoDup in Hn. fold c in Hn.
+  pose proof (assoc_mp m _ _ _ Hn Gp) as A. simpl in A. unfold mp. rewrite A. reflexivity.
+Qed.
+
+Theorem solve_correct : forall solve, solver_ok solve -> forall s,
+  match bf_solve solve (desugar s) with
+  | None => clash_free s = true -> forall env, seval env s = false
+  | Some mp => positive_unique s = true -> names_distinct (desugar s) = true ->
+               forall dflt, seval (complete mp dflt) s = true
+  end.
+Proof.
+  intros solve Hok s. unfold bf_solve.
+  set (c := as_cnf (desugar s)).
+  destruct (solve (List.length (v_all (c_vars c))) (cnf_problem (c_clauses c))) as [m|] eqn:E.
+  - intros Hp Hn dflt. destruct (solver_ok_some _ Hok _ _ _ E) as [L S].
+    rewrite sat_cnf_problem in S.
+    set (mp := map (fun e : var * Z => (vname (fst e), var_val m (snd e))) (v_pb (c_vars c))).
+    pose proof (cnf_sound s Hp m (complete mp dflt) S) as H. fold c in H.
+    rewrite <- H. apply seval_ext. intros n. symmetry.
+    apply (names_of_complete (desugar s) m dflt (fv_ok_desugar s) Hn).
+  - intros G env. destruct (seval env s) eqn:H; [|reflexivity]. exfalso.
+    destruct (cnf_complete s G env H) as [m [L [S _]]]. fold c in L, S.
+    apply (solver_ok_none _ Hok _ _ E). exists m. split; [exact L|].
+    rewrite sat_cnf_problem. exact S.
+Qed.
+
+(* ------------------------------------------------------------------ *)
+(* Which variables end up in the table.                                 *)
+
+
+(* ---- which variables end up in the table ---- *)
+
+Definition cover_ok (g : form) : Prop :=
+  forall vs cls vs', fv_ok g -> cnf_ok g = true -> wf_vars vs -> cnf_rec g vs = (cls, vs') ->
+  forall v, tseitin_name v = false ->
+  (In v (keys (v_all vs')) <-> In v (keys (v_all vs)) \/ In v (fvars g)).
+
+Lemma lit_value_cover : forall vs v s x vs' w,
+  wf_vars vs -> tseitin_name v = false -> lit_value vs v s = (x, vs') ->
+  (In w (keys (v_all vs')) <-> In w (keys (v_all vs)) \/ w = v).
+Proof.
+  intros vs v s x vs' w W Hv E.
+  destruct (lit_value_spec _ _ _ _ _ W Hv E) as [i [Ex [G [W1 [X1 [Hsame|Hnew]]]]]].
+  - subst vs'. split; [auto|]. intros [H|H]; [exact H|]. subst w. eapply tbl_get_some_key. exact G.
+  - destruct Hnew as [_ [_ [Ea _]]]. rewrite Ea. unfold keys. rewrite map_app, in_app_iff. simpl.
+    split; intros [H|H]; auto.
+    + destruct H as [H|[]]. auto.
+Qed.
+
+Lemma new_dummy_cover : forall vs d vs' w,
+  wf_vars vs -> new_dummy vs = (d, vs') -> tseitin_name w = false ->
+  (In w (keys (v_all vs')) <-> In w (keys (v_all vs))).
+Proof.
+  intros vs d vs' w W E Hw. destruct (new_dummy_spec _ _ _ W E) as [_ [_ [_ [_ [Ea _]]]]].
+  rewrite Ea. unfold keys. rewrite map_app, in_app_iff. simpl. split; [|auto].
+  intros [H|[H|[]]]; [exact H|]. subst w. rewrite tseitin_var_name in Hw. discriminate.
+Qed.
+
+Lemma and_cover : forall l, Forall cover_ok l -> cover_ok (FAnd l).
+Proof.
+  induction l as [|x l IH]; intros HF vs cls vs' Hfv Hok W H v Hv.
+  - simpl in H. injection H as <- <-. simpl. tauto.
+  - inversion HF as [|x' l' Hx Hl]; subst. rewrite cnf_rec_and_cons in H.
+    destruct (cnf_rec x vs) as [c1 vs1] eqn:E1.
+    destruct (cnf_rec (FAnd l) vs1) as [c2 vs2] eqn:E2. injection H as <- <-.
+    assert (Fx : fv_ok x) by (apply (fv_ok_and_in _ _ Hfv); left; reflexivity).
+    assert (Fl : fv_ok (FAnd l)).
+    { apply fv_ok_and_of. intros y Hy. apply (fv_ok_and_in _ _ Hfv). right. exact Hy. }
+    cbn [cnf_ok forallb] in Hok. apply andb_true_iff in Hok. destruct Hok as [Ox Ol].
+    destruct (cnf_rec_struct x _ _ _ Fx W E1) as [W1 _].
+    rewrite (IH Hl _ _ _ Fl Ol W1 E2 v Hv), (Hx _ _ _ Fx Ox W E1 v Hv).
+    cbn [fvars flat_map]. rewrite in_app_iff. simpl. tauto.
+Qed.
+
+Lemma or_thread_cover : forall l, Forall cover_ok l ->
+  forall vs res lits vs', fv_ok (FOr l) -> cnf_ok (FOr l) = true -> wf_vars vs ->
+  or_thread cnf_rec l vs = (res, lits, vs') ->
+  forall v, tseitin_name v = false ->
+  (In v (keys (v_all vs')) <-> In v (keys (v_all vs)) \/ In v (fvars (FOr l))).
+Proof.
+  induction l as [|sub l IH]; intros HF vs res lits vs' Hfv Hok W H w Hw.
+  - simpl in H. injection H as <- <- <-. simpl. tauto.
+  - inversion HF as [|x' l' Hx HFl]; subst.
+    assert (Fl : fv_ok (FOr l)).
+    { apply fv_ok_or_of. intros y Hy. apply (fv_ok_or_in _ _ Hfv). right. exact Hy. }
+    assert (Fs : fv_ok sub) by (apply (fv_ok_or_in _ _ Hfv); left; reflexivity).
+    cbn [cnf_ok forallb] in Hok. apply andb_true_iff in Hok. destruct Hok as [Os Ol].
+    change (cnf_ok (FOr l) = true) in Ol.
+    destruct sub as [v|v s|g|l2|l2| |]; try discriminate.
+    + rewrite or_thread_lit in H. destruct (lit_value vs v s) as [x vs1] eqn:E1.
+      destruct (or_thread cnf_rec l vs1) as [[res2 lits2] vs2] eqn:E2. injection H as <- <- <-.
+      assert (Hv : tseitin_name v = false) by (apply Fs; simpl; auto).
+      destruct (lit_value_spec _ _ _ _ _ W Hv E1) as [i [_ [_ [W1 _]]]].
+      rewrite (IH HFl _ _ _ _ Fl Ol W1 E2 w Hw), (lit_value_cover _ _ _ _ _ w W Hv E1).
+      cbn [fvars flat_map]. rewrite in_app_iff. simpl. intuition.
+    + rewrite or_thread_and in H. destruct (new_dummy vs) as [d vs1] eqn:E1.
+      destruct (cnf_rec (FAnd l2) vs1) as [c vs2] eqn:E2.
+      destruct (or_thread cnf_rec l vs2) as [[res3 lits3] vs3] eqn:E3. injection H as <- <- <-.
+      destruct (new_dummy_spec _ _ _ W E1) as [_ [W1 _]].
+      destruct (cnf_rec_struct _ _ _ _ Fs W1 E2) as [W2 _].
+      change (cnf_ok (FAnd l2) = true) in Os.
+      rewrite (IH HFl _ _ _ _ Fl Ol W2 E3 w Hw), (Hx _ _ _ Fs Os W1 E2 w Hw),
+        (new_dummy_cover _ _ _ w W E1 Hw).
+      cbn [fvars flat_map]. rewrite in_app_iff. simpl. tauto.
+Qed.
+
+Lemma cnf_rec_cover : forall g, cover_ok g.
+Proof.
+  induction g as [v|v s|f IH|l IH|l IH| |] using form_ind'.
+  - intros vs cls vs' _ Hok. discriminate.
+  - intros vs cls vs' Hfv _ W H w Hw. simpl in H.
+    destruct (lit_value vs v s) as [x vs1] eqn:E1. injection H as <- <-.
+    assert (Hv : tseitin_name v = false) by (apply Hfv; simpl; auto).
+    rewrite (lit_value_cover _ _ _ _ _ w W Hv E1). simpl. intuition.
+  - intros vs cls vs' _ Hok. discriminate.
+  - apply and_cover. exact IH.
+  - intros vs cls vs' Hfv Hok W H w Hw. cbn [cnf_rec] in H.
+    destruct (or_thread cnf_rec l vs) as [[res lits] vs1] eqn:E. injection H as <- <-.
+    apply (or_thread_cover l IH _ _ _ _ Hfv Hok W E w Hw).
+  - intros vs cls vs' _ _ W H w Hw. simpl in H. injection H as <- <-. simpl. tauto.
+  - intros vs cls vs' _ _ W H w Hw. simpl in H. injection H as <- <-. simpl. tauto.
+Qed.
+
+Theorem as_cnf_cover : forall f, fv_ok f -> forall v, tseitin_name v = false ->
+  (In v (keys (v_all (c_vars (as_cnf f)))) <-> In v (fvars (nnf f))).
+Proof.
+  intros f Hf v Hv.
+  rewrite (cnf_rec_cover (nnf f) _ _ _ (fv_ok_nnf _ Hf) (nnf_cnf_ok f) wf_empty (as_cnf_eq f) v Hv).
+  simpl. tauto.
+Qed.
+
+(* ------------------------------------------------------------------ *)
+(* The DIMACS export.                                                   *)
+
+
+(* ---- sort.Strings ---- *)
+
+Lemma insert_str_perm : forall s l, Permutation (insert_str s l) (s :: l).
+Proof.
+  intros s. induction l as [|x l IH]; simpl; [apply Permutation_refl|].
+  destruct (String.leb s x); [apply Permutation_refl|].
+  eapply Permutation_trans; [apply perm_skip; exact IH|apply perm_swap].
+Qed.
+
+Lemma sort_strings_perm : forall l, Permutation (sort_strings l) l.
+Proof.
+  induction l as [|x l IH]; simpl; [constructor|].
+  eapply Permutation_trans; [apply insert_str_perm|apply perm_skip; exact IH].
+Qed.
+
+Definition str_le (a b : string) : Prop := String.leb a b = true.
+
+Lemma insert_str_sorted : forall s l, Sorted str_le l -> Sorted str_le (insert_str s l).
+Proof.
+  intros s. induction l as [|x l IH]; simpl; intros H.
+  - constructor; constructor.
+  - destruct (String.leb s x) eqn:E.
+    + constructor; [exact H|constructor; exact E].
+    + inversion H as [|x' l' Hs Hh]; subst. constructor; [apply IH; exact Hs|].
+      assert (Hx : str_le x s).
+      { destruct (String.leb_total s x) as [T|T]; [congruence|exact T]. }
+      destruct l as [|y l]; simpl.
+      * constructor. exact Hx.
+      * destruct (String.leb s y); constructor; [exact Hx|].
+        inversion Hh; subst. assumption.
+Qed.
+
+Lemma sort_strings_sorted : forall l, Sorted str_le (sort_strings l).
+Proof.
+  induction l as [|x l IH]; simpl; [constructor|]. apply insert_str_sorted. exact IH.
+Qed.
+
+(* ---- list facts ---- *)
+
+Lemma NoDup_map_inj_on {A B} (f : A -> B) l :
+  NoDup l -> (forall x y, In x l -> In y l -> f x = f y -> x = y) -> NoDup (map f l).
+Proof.
+  induction l as [|a l IH]; simpl; intros ND H; [constructor|].
+  inversion ND as [|a' l' Ha Hl]; subst. constructor.
+  - intros Hin. apply in_map_iff in Hin. destruct Hin as [y [Ey Hy]].
+    assert (y = a) by (apply H; auto). subst. contradiction.
+  - apply IH; [exact Hl|]. intros x y Hx Hy. apply H; auto.
+Qed.
+
+Lemma NoDup_keys_filter : forall (P : var * Z -> bool) (t : table),
+  NoDup (keys t) -> NoDup (keys (filter P t)).
+Proof.
+  intros P. induction t as [|[w x] t IH]; simpl; intros H; [constructor|].
+  inversion H as [|a l Ha Hl]; subst. destruct (P (w, x)); simpl.
+  - constructor; [|apply IH; exact Hl]. intros Hin. apply Ha. unfold keys in *.
+    apply in_map_iff in Hin. destruct Hin as [[w' x'] [E Hin]]. simpl in E. subst w'.
+    apply filter_In in Hin. apply in_map_iff. exists (w, x'). split; [reflexivity|apply Hin].
+  - apply IH. exact Hl.
+Qed.
+
+Lemma assoc_idx_in : forall (g : string -> Z) l n, In n l ->
+  assoc_idx (map (fun s => (s, g s)) l) n = Some (g n).
+Proof.
+  intros g. induction l as [|x l IH]; intros n H; [destruct H|]. simpl.
+  destruct (String.eqb x n) eqn:E.
+  - apply String.eqb_eq in E. subst. reflexivity.
+  - destruct H as [H|H]; [subst; rewrite String.eqb_refl in E; discriminate|]. apply IH. exact H.
+Qed.
+
+Lemma assoc_idx_notin : forall (g : string -> Z) l n, ~ In n l ->
+  assoc_idx (map (fun s => (s, g s)) l) n = None.
+Proof.
+  intros g. induction l as [|x l IH]; intros n H; [reflexivity|]. simpl.
+  destruct (String.eqb x n) eqn:E.
+  - apply String.eqb_eq in E. subst. exfalso. apply H. left. reflexivity.
+  - apply IH. intros Hin. apply H. right. exact Hin.
+Qed.
+
+(* ---- the export ---- *)
+
+Definition export_names (f : form) : list string :=
+  map vname (filter (fun v => negb (vdummy v)) (map fst (v_pb (c_vars (as_cnf f))))).
+
+Definition export_idx (f : form) (s : string) : Z :=
+  match tbl_get (v_pb (c_vars (as_cnf f))) (pb_var s) with Some i => i | None => 0 end.
+
+Lemma d_names_eq : forall f,
+  d_names (dimacs_export f) = map (fun s => (s, export_idx f s)) (sort_strings (export_names f)).
+Proof. reflexivity. Qed.
+
+Lemma pb_keys : forall vs v, wf_vars vs ->
+  (In v (keys (v_pb vs)) <-> In v (keys (v_all vs)) /\ tseitin_name v = false).
+Proof.
+  intros vs v W. rewrite (wf_pb _ W). unfold keys. split.
+  - intros H. apply in_map_iff in H. destruct H as [[w i] [E H]]. simpl in E. subst w.
+    apply filter_In in H. destruct H as [H1 H2]. simpl in H2. apply negb_true_iff in H2.
+    split; [|exact H2]. apply in_map_iff. exists (v, i). auto.
+  - intros [H Hv]. apply in_map_iff in H. destruct H as [[w i] [E H]]. simpl in E. subst w.
+    apply in_map_iff. exists (v, i). split; [reflexivity|]. apply filter_In.
+    split; [exact H|]. simpl. rewrite Hv. reflexivity.
+Qed.
+
+Lemma export_names_in : forall f n, fv_ok f ->
+  (In n (export_names f) <-> In (pb_var n) (keys (v_all (c_vars (as_cnf f))))).
+Proof.
+  intros f n Hf. destruct (as_cnf_struct f Hf) as [W _]. unfold export_names.
+  rewrite in_map_iff. split.
+  - intros [v [E H]]. apply filter_In in H. destruct H as [H1 H2].
+    apply negb_true_iff in H2. destruct v as [nv dv]. simpl in *. subst.
+    change (In (pb_var n) (keys (v_pb (c_vars (as_cnf f))))) in H1.
+    apply (pb_keys _ _ W) in H1. apply H1.
+  - intros H. exists (pb_var n). split; [reflexivity|]. apply filter_In. split; [|reflexivity].
+    change (In (pb_var n) (keys (v_pb (c_vars (as_cnf f))))). apply (pb_keys _ _ W). auto.
+Qed.
+
+Lemma export_names_nodup : forall f, fv_ok f -> NoDup (export_names f).
+Proof.
+  intros f Hf. destruct (as_cnf_struct f Hf) as [W _]. unfold export_names.
+  apply NoDup_map_inj_on.
+  - apply NoDup_filter. change (NoDup (keys (v_pb (c_vars (as_cnf f))))).
+    rewrite (wf_pb _ W). apply NoDup_keys_filter. apply (wf_nodup _ W).
+  - intros [n1 d1] [n2 d2] H1 H2 E. apply filter_In in H1. apply filter_In in H2.
+    destruct H1 as [_ H1]. destruct H2 as [_ H2]. simpl in *.
+    apply negb_true_iff in H1. apply negb_true_iff in H2. subst. reflexivity.
+Qed.
+
+Lemma export_idx_get : forall f n, fv_ok f -> In n (export_names f) ->
+  tbl_get (v_all (c_vars (as_cnf f))) (pb_var n) = Some (export_idx f n).
+Proof.
+  intros f n Hf H. destruct (as_cnf_struct f Hf) as [W _]. apply (export_names_in f n Hf) in H.
+  unfold export_idx. rewrite (pb_get _ _ W) by reflexivity.
+  destruct (tbl_get (v_all (c_vars (as_cnf f))) (pb_var n)) eqn:G; [reflexivity|].
+  apply tbl_get_none in G. contradiction.
+Qed.
+
+Theorem dimacs_wellformed : forall f, fv_ok f ->
+  let d := dimacs_export f in
+  d_nbvars d = Z.of_nat (List.length (v_all (c_vars (as_cnf f)))) /\
+  d_nbclauses d = Z.of_nat (List.length (d_clauses d)) /\
+  d_clauses d = c_clauses (as_cnf f) /\
+  (forall c l, In c (d_clauses d) -> In l c -> 1 <= Z.abs l <= d_nbvars d) /\
+  NoDup (map fst (d_names d)) /\
+  NoDup (map snd (d_names d)) /\
+  (forall n i, In (n, i) (d_names d) ->
+     1 <= i <= d_nbvars d /\ tbl_get (v_all (c_vars (as_cnf f))) (pb_var n) = Some i) /\
+  (forall n, In n (map fst (d_names d)) <-> In (pb_var n) (fvars (nnf f))) /\
+  Sorted str_le (map fst (d_names d)).
+Proof.
+  intros f Hf d. destruct (as_cnf_struct f Hf) as [W R].
+  assert (Efst : map fst (d_names d) = sort_strings (export_names f)).
+  { unfold d. rewrite d_names_eq, map_map. simpl. apply map_id. }
+  assert (Hin : forall n, In n (sort_strings (export_names f)) <-> In n (export_names f)).
+  { intros n. split; apply Permutation_in;
+      [apply sort_strings_perm|apply Permutation_sym, sort_strings_perm]. }
+  assert (ND : NoDup (sort_strings (export_names f))).
+  { eapply Permutation_NoDup; [apply Permutation_sym, sort_strings_perm|].
+    apply export_names_nodup. exact Hf. }
+  split; [reflexivity|split; [reflexivity|split; [reflexivity|]]].
+  split; [exact R|]. split; [rewrite Efst; exact ND|]. split; [|split; [|split]].
+  - unfold d. rewrite d_names_eq, map_map. simpl. apply NoDup_map_inj_on; [exact ND|].
+    intros x y Hx Hy E. apply Hin in Hx. apply Hin in Hy.
+    pose proof (export_idx_get f x Hf Hx) as Gx. pose proof (export_idx_get f y Hf Hy) as Gy.
+    rewrite E in Gx. apply tbl_get_in in Gx. apply tbl_get_in in Gy.
+    pose proof (wf_inj _ _ _ _ W Gx Gy) as Ev. injection Ev as Ev. exact Ev.
+  - intros n i H. unfold d in H. rewrite d_names_eq in H. apply in_map_iff in H.
+    destruct H as [n' [E H]]. injection E as -> <-. apply Hin in H.
+    pose proof (export_idx_get f n Hf H) as G. split; [|exact G].
+    apply (wf_get_range _ _ _ W G).
+  - intros n. rewrite Efst, Hin, (export_names_in f n Hf).
+    apply (as_cnf_cover f Hf). reflexivity.
+  - rewrite Efst. apply sort_strings_sorted.
+Qed.
+
+Lemma restrict_names_of : forall f m dflt n, fv_ok f ->
+  restrict (dimacs_export f) m dflt n = names_of (as_cnf f) m dflt n.
+Proof.
+  intros f m dflt n Hf. unfold restrict, names_of, env_of, env_tbl. rewrite d_names_eq.
+  assert (Hin : In n (sort_strings (export_names f)) <-> In n (export_names f)).
+  { split; apply Permutation_in;
+      [apply sort_strings_perm|apply Permutation_sym, sort_strings_perm]. }
+  destruct (tbl_get (v_all (c_vars (as_cnf f))) (pb_var n)) as [i|] eqn:G.
+  - assert (H : In n (export_names f)).
+    { apply (export_names_in f n Hf). eapply tbl_get_some_key. exact G. }
+    rewrite assoc_idx_in by (apply Hin; exact H).
+    rewrite (export_idx_get f n Hf H) in G. injection G as ->. reflexivity.
+  - rewrite assoc_idx_notin; [reflexivity|]. intros H. apply Hin in H.
+    apply (export_names_in f n Hf) in H. apply tbl_get_none in G. contradiction.
+Qed.
+
+Theorem dimacs_models : forall s,
+  let d := dimacs_export (desugar s) in
+  (clash_free s = true -> forall env, seval env s = true ->
+     exists m, Z.of_nat (List.length m) = d_nbvars d /\ sat_cnf m (d_clauses d) = true /\
+               forall dflt n, In n (map fst (d_names d)) -> restrict d m dflt n = env n) /\
+  (positive_unique s = true -> forall m dflt,
+     sat_cnf m (d_clauses d) = true -> seval (restrict d m dflt) s = true).
+Proof.
+  intros s d. pose proof (fv_ok_desugar s) as Hf. split.
+  - intros G env H. destruct (cnf_complete s G env H) as [m [L [S C]]].
+    exists m. split; [unfold d; simpl; unfold tbl_len; lia|split; [exact S|]].
+    intros dflt n Hn. unfold d. rewrite restrict_names_of by exact Hf.
+    destruct (dimacs_wellformed (desugar s) Hf) as [_ [_ [_ [_ [_ [_ [Hidx _]]]]]]].
+    fold d in Hidx. apply in_map_iff in Hn. destruct Hn as [[n' i] [E Hn]]. simpl in E. subst n'.
+    destruct (Hidx n i Hn) as [_ Gi]. unfold names_of, env_of, env_tbl. rewrite Gi.
+    apply (C n i Gi).
+  - intros Hp m dflt S. rewrite <- (cnf_sound s Hp m dflt S).
+    apply seval_ext. intros n. apply restrict_names_of. exact Hf.
+Qed.
+
+(* ------------------------------------------------------------------ *)
+(* The literal mirror of not.nnf, with its second normalisation pass.   *)
+
+Open Scope nat_scope.
+
+
+(* ---- the literal mirror of not.nnf (second normalisation pass) ---- *)
+
+Lemma maxd_in : forall d l x, In x l -> d x <= maxd d l.
+Proof.
+  intros d. induction l as [|y l IH]; intros x H; [destruct H|]. simpl.
+  destruct H as [->|H]; [lia|]. specialize (IH x H). lia.
+Qed.
+
+Lemma maxd_cons : forall d x l, maxd d (x :: l) = Nat.max (d x) (maxd d l).
+Proof. reflexivity. Qed.
+
+Lemma maxd_app : forall d a b, maxd d (a ++ b) = Nat.max (maxd d a) (maxd d b).
+Proof. intros d. induction a as [|x a IH]; intros b; simpl; [reflexivity|]. rewrite IH. lia. Qed.
+
+Lemma maxd_le : forall d l n, (forall x, In x l -> d x <= n) -> maxd d l <= n.
+Proof.
+  intros d. induction l as [|y l IH]; intros n H; simpl; [lia|].
+  pose proof (H y (or_introl eq_refl)). assert (maxd d l <= n) by (apply IH; intros; apply H; right; auto).
+  lia.
+Qed.
+
+Definition all_go (k : nat) (l : list form) : option (list form) :=
+  fold_right (fun s acc => match nnf_go k s, acc with
+                           | Some x, Some r => Some (x :: r)
+                           | _, _ => None end) (Some []) l.
+
+Lemma all_go_map : forall k (g : form -> form) l,
+  (forall x, In x l -> nnf_go k x = Some (g x)) -> all_go k l = Some (map g l).
+Proof.
+  intros k g. induction l as [|x l IH]; intros H; [reflexivity|]. simpl.
+  rewrite (H x (or_introl eq_refl)). rewrite IH by (intros; apply H; right; auto). reflexivity.
+Qed.
+
+Lemma nnf_go_and : forall k l, nnf_go (S k) (FAnd l) = option_map and_fold (all_go k l).
+Proof. reflexivity. Qed.
+Lemma nnf_go_or : forall k l, nnf_go (S k) (FOr l) = option_map or_fold (all_go k l).
+Proof. reflexivity. Qed.
+Lemma nnf_go_not_and : forall k l, nnf_go (S k) (FNot (FAnd l)) =
+  match all_go k (map FNot l) with Some subs => nnf_go k (FOr subs) | None => None end.
+Proof. reflexivity. Qed.
+Lemma nnf_go_not_or : forall k l, nnf_go (S k) (FNot (FOr l)) =
+  match all_go k (map FNot l) with Some subs => nnf_go k (FAnd subs) | None => None end.
+Proof. reflexivity. Qed.
+
+(* on an NNF the pass is the identity, with fuel = depth *)
+Lemma nnf_go_fix : forall g par k, nnf_sub par g = true -> depth g <= k -> nnf_go k g = Some g.
+Proof.
+  induction g as [v|v s|f IH|l IH|l IH| |] using form_ind'; intros par k H Hk; simpl in H;
+    try discriminate.
+  - destruct k; [simpl in Hk; lia|reflexivity].
+  - destruct k as [|k]; [simpl in Hk; lia|]. rewrite nnf_go_and.
+    apply andb_true_iff in H. destruct H as [H Hl].
+    apply andb_true_iff in H. destruct H as [_ Hn].
+    rewrite (all_go_map k (fun x => x)).
+    + rewrite map_id. simpl. unfold and_fold. rewrite (and_collect_id _ Hl).
+      destruct l as [|x [|y r]]; simpl in Hn; try discriminate. reflexivity.
+    + intros x Hx. rewrite Forall_forall in IH. rewrite forallb_forall in Hl.
+      apply (IH x Hx KAnd); [apply Hl; exact Hx|].
+      pose proof (maxd_in depth l x Hx). simpl in Hk. lia.
+  - destruct k as [|k]; [simpl in Hk; lia|]. rewrite nnf_go_or.
+    apply andb_true_iff in H. destruct H as [H Hl].
+    apply andb_true_iff in H. destruct H as [_ Hn].
+    rewrite (all_go_map k (fun x => x)).
+    + rewrite map_id. simpl. unfold or_fold. rewrite (or_collect_id _ Hl).
+      destruct l as [|x [|y r]]; simpl in Hn; try discriminate. reflexivity.
+    + intros x Hx. rewrite Forall_forall in IH. rewrite forallb_forall in Hl.
+      apply (IH x Hx KOr); [apply Hl; exact Hx|].
+      pose proof (maxd_in depth l x Hx). simpl in Hk. lia.
+Qed.
+
+Lemma nnf_go_fix_top : forall g k, is_nnf g = true -> depth g <= k -> nnf_go k g = Some g.
+Proof.
+  intros g k H Hk. destruct g; try (simpl in H; discriminate);
+    try (apply (nnf_go_fix _ KTop); assumption);
+    (destruct k; [simpl in Hk; lia|reflexivity]).
+Qed.
+
+(* nnf does not increase the depth *)
+Lemma and_collect_depth : forall l res, and_collect l = Some res -> maxd depth res <= maxd depth l.
+Proof.
+  induction l as [|x l IH]; intros res H; cbn [and_collect] in H.
+  - injection H as <-. lia.
+  - destruct x;
+      try (destruct (and_collect l) as [r|]; cbn [option_map] in H; [|discriminate];
+           injection H as <-; specialize (IH r eq_refl); rewrite !maxd_cons; lia).
+    + destruct (and_collect l) as [r|]; cbn [option_map] in H; [|discriminate].
+      injection H as <-. specialize (IH r eq_refl). rewrite maxd_app, maxd_cons.
+      change (depth (FAnd l0)) with (S (maxd depth l0)). lia.
+    + discriminate.
+Qed.
+
+Lemma or_collect_depth : forall l res, or_collect l = Some res -> maxd depth res <= maxd depth l.
+Proof.
+  induction l as [|x l IH]; intros res H; cbn [or_collect] in H.
+  - injection H as <-. lia.
+  - destruct x;
+      try (destruct (or_collect l) as [r|]; cbn [option_map] in H; [|discriminate];
+           injection H as <-; specialize (IH r eq_refl); rewrite !maxd_cons; lia).
+    + destruct (or_collect l) as [r|]; cbn [option_map] in H; [|discriminate].
+      injection H as <-. specialize (IH r eq_refl). rewrite maxd_app, maxd_cons.
+      change (depth (FOr l0)) with (S (maxd depth l0)). lia.
+    + discriminate.
+Qed.
+
+Lemma and_fold_depth : forall l, depth (and_fold l) <= S (maxd depth l).
+Proof.
+  intros l. unfold and_fold. destruct (and_collect l) as [res|] eqn:E; [|simpl; lia].
+  pose proof (and_collect_depth _ _ E) as H.
+  destruct res as [|x [|y r]]; simpl in *; lia.
+Qed.
+
+Lemma or_fold_depth : forall l, depth (or_fold l) <= S (maxd depth l).
+Proof.
+  intros l. unfold or_fold. destruct (or_collect l) as [res|] eqn:E; [|simpl; lia].
+  pose proof (or_collect_depth _ _ E) as H.
+  destruct res as [|x [|y r]]; simpl in *; lia.
+Qed.
+
+Lemma maxd_map_le : forall (g : form -> form) l,
+  Forall (fun x => depth (g x) <= depth x) l -> maxd depth (map g l) <= maxd depth l.
+Proof. induction 1 as [|x l H _ IH]; simpl; lia. Qed.
+
+Lemma nnfp_depth : forall f neg, depth (nnfp neg f) <= depth f.
+Proof.
+  induction f as [v|v s|f IH|l IH|l IH| |] using form_ind'; intros neg; simpl.
+  - lia.
+  - lia.
+  - specialize (IH (negb neg)). lia.
+  - assert (H : forall b, maxd depth (map (nnfp b) l) <= maxd depth l).
+    { intros b. apply maxd_map_le. eapply Forall_impl; [|exact IH]. intros a Ha. apply Ha. }
+    destruct neg; [pose proof (or_fold_depth (map (nnfp true) l))
+                  |pose proof (and_fold_depth (map (nnfp false) l))];
+      [specialize (H true)|specialize (H false)]; lia.
+  - assert (H : forall b, maxd depth (map (nnfp b) l) <= maxd depth l).
+    { intros b. apply maxd_map_le. eapply Forall_impl; [|exact IH]. intros a Ha. apply Ha. }
+    destruct neg; [pose proof (and_fold_depth (map (nnfp true) l))
+                  |pose proof (or_fold_depth (map (nnfp false) l))];
+      [specialize (H true)|specialize (H false)]; lia.
+  - destruct neg; simpl; lia.
+  - destruct neg; simpl; lia.
+Qed.
+
+Lemma nnf_go_both : forall f k, 2 * depth f <= k ->
+  nnf_go (S k) f = Some (nnfp false f) /\ nnf_go (S (S k)) (FNot f) = Some (nnfp true f).
+Proof.
+  induction f as [v|v s|f IH|l IH|l IH| |] using form_ind'; intros k Hk.
+  - split; reflexivity.
+  - split; reflexivity.
+  - simpl in Hk. destruct k as [|[|k]]; [lia|lia|].
+    destruct (IH (S k) ltac:(lia)) as [H1 H2]. split.
+    + exact H2.
+    + change (nnf_go (S (S (S (S k)))) (FNot (FNot f))) with (nnf_go (S (S (S k))) f).
+      destruct (IH (S (S k)) ltac:(lia)) as [H3 _]. exact H3.
+  - simpl in Hk. destruct k as [|[|k]]; [lia|lia|]. rewrite Forall_forall in IH.
+    assert (Hd : forall x, In x l -> 2 * depth x <= k).
+    { intros x Hx. pose proof (maxd_in depth l x Hx). lia. }
+    split.
+    + rewrite nnf_go_and. rewrite (all_go_map _ (nnfp false)); [reflexivity|].
+      intros x Hx. destruct (IH x Hx (S k) ltac:(specialize (Hd x Hx); lia)) as [H1 _]. exact H1.
+    + rewrite nnf_go_not_and. rewrite (all_go_map _ (fun y => match y with FNot x => nnfp true x | _ => y end)).
+      * rewrite map_map. cbn beta iota. rewrite nnf_go_or.
+        rewrite (all_go_map _ (fun x => x)); [rewrite map_id; reflexivity|].
+        intros y Hy. apply in_map_iff in Hy. destruct Hy as [x [<- Hx]].
+        apply nnf_go_fix_top; [apply nnfp_shape|].
+        pose proof (nnfp_depth x true). specialize (Hd x Hx). lia.
+      * intros y Hy. apply in_map_iff in Hy. destruct Hy as [x [<- Hx]].
+        destruct (IH x Hx (S k) ltac:(specialize (Hd x Hx); lia)) as [_ H2]. exact H2.
+  - simpl in Hk. destruct k as [|[|k]]; [lia|lia|]. rewrite Forall_forall in IH.
+    assert (Hd : forall x, In x l -> 2 * depth x <= k).
+    { intros x Hx. pose proof (maxd_in depth l x Hx). lia. }
+    split.
+    + rewrite nnf_go_or. rewrite (all_go_map _ (nnfp false)); [reflexivity|].
+      intros x Hx. destruct (IH x Hx (S k) ltac:(specialize (Hd x Hx); lia)) as [H1 _]. exact H1.
+    + rewrite nnf_go_not_or. rewrite (all_go_map _ (fun y => match y with FNot x => nnfp true x | _ => y end)).
+      * rewrite map_map. cbn beta iota. rewrite nnf_go_and.
+        rewrite (all_go_map _ (fun x => x)); [rewrite map_id; reflexivity|].
+        intros y Hy. apply in_map_iff in Hy. destruct Hy as [x [<- Hx]].
+        apply nnf_go_fix_top; [apply nnfp_shape|].
+        pose proof (nnfp_depth x true). specialize (Hd x Hx). lia.
+      * intros y Hy. apply in_map_iff in Hy. destruct Hy as [x [<- Hx]].
+        destruct (IH x Hx (S k) ltac:(specialize (Hd x Hx); lia)) as [_ H2]. exact H2.
+  - split; reflexivity.
+  - split; reflexivity.
+Qed.
+
+(* the literal mirror (with the second pass of not.nnf) computes [nnf] *)
+Theorem nnf_go_nnf : forall f k, 2 * depth f < k -> nnf_go k f = Some (nnf f).
+Proof.
+  intros f k H. destruct k as [|k]; [lia|]. apply (nnf_go_both f k). lia.
+Qed.
+
+Close Scope nat_scope.
+
+(* ------------------------------------------------------------------ *)
+(* Eval.                                                                *)
+
+
+(* ---- Eval on a map: the standard semantics when every name is bound ---- *)
+
+Lemma fold_and_some : forall (g : form -> option bool) (ev : form -> bool) l acc,
+  (forall s, In s l -> g s = Some (ev s)) ->
+  fold_left (fun a s => match a, g s with Some x, Some y => Some (x && y) | _, _ => None end)
+            l (Some acc) = Some (acc && forallb ev l).
+Proof.
+  intros g ev. induction l as [|x l IH]; intros acc H; simpl.
+  - rewrite andb_true_r. reflexivity.
+  - rewrite (H x (or_introl eq_refl)). rewrite IH by (intros; apply H; right; auto).
+    rewrite andb_assoc. reflexivity.
+Qed.
+
+Lemma fold_or_some : forall (g : form -> option bool) (ev : form -> bool) l acc,
+  (forall s, In s l -> g s = Some (ev s)) ->
+  fold_left (fun a s => match a, g s with Some x, Some y => Some (x || y) | _, _ => None end)
+            l (Some acc) = Some (acc || existsb ev l).
+Proof.
+  intros g ev. induction l as [|x l IH]; intros acc H; simpl.
+  - rewrite orb_false_r. reflexivity.
+  - rewrite (H x (or_introl eq_refl)). rewrite IH by (intros; apply H; right; auto).
+    rewrite orb_assoc. reflexivity.
+Qed.
+
+Theorem eval_go_eval : forall m f,
+  (forall v, In v (fvars f) -> assoc_str m (vname v) <> None) ->
+  eval_go m f = Some (eval (env_map m) f).
+Proof.
+  intros m. induction f as [v|v s|f IH|l IH|l IH| |] using form_ind'; intros H; cbn [eval_go eval].
+  - unfold env_map. destruct (assoc_str m (vname v)) eqn:E; [reflexivity|].
+    exfalso. apply (H v); [left; reflexivity|exact E].
+  - unfold env_map. destruct (assoc_str m (vname v)) eqn:E; [reflexivity|].
+    exfalso. apply (H v); [left; reflexivity|exact E].
+  - rewrite IH by exact H. reflexivity.
+  - rewrite (fold_and_some (eval_go m) (eval (env_map m))); [reflexivity|].
+    intros s Hs. rewrite Forall_forall in IH. apply (IH s Hs).
+    intros v Hv. apply H. simpl. apply in_flat_map. exists s. auto.
+  - rewrite (fold_or_some (eval_go m) (eval (env_map m))); [reflexivity|].
+    intros s Hs. rewrite Forall_forall in IH. apply (IH s Hs).
+    intros v Hv. apply H. simpl. apply in_flat_map. exists s. auto.
+  - reflexivity.
+  - reflexivity.
+Qed.
+
+(* ------------------------------------------------------------------ *)
+(* Every variable of the table occurs in a clause.                      *)
+
+
+(* ---- every variable of the table occurs in a clause (solver.ParseSlice
+        therefore counts len(vars.all) variables) ---- *)
+
+Definition occurs (i : Z) (cls : list clause) : Prop :=
+  exists c l, In c cls /\ In l c /\ Z.abs l = i.
+
+Lemma occurs_app_l : forall i a b, occurs i a -> occurs i (a ++ b).
+Proof. intros i a b [c [l [H1 H2]]]. exists c, l. split; [apply in_or_app; auto|exact H2]. Qed.
+
+Lemma occurs_app_r : forall i a b, occurs i b -> occurs i (a ++ b).
+Proof. intros i a b [c [l [H1 H2]]]. exists c, l. split; [apply in_or_app; auto|exact H2]. Qed.
+
+Lemma occurs_guard : forall i d c, occurs i c -> occurs i (guard d c).
+Proof.
+  intros i d c [c0 [l [H1 [H2 H3]]]]. exists (c0 ++ [- d]), l. split; [|split; [|exact H3]].
+  - unfold guard. apply in_map_iff. exists c0. auto.
+  - apply in_or_app. auto.
+Qed.
+
+Definition used_ok (g : form) : Prop :=
+  forall vs cls vs', fv_ok g -> wf_vars vs -> cnf_rec g vs = (cls, vs') ->
+  forall i, nvars vs < i <= nvars vs' -> occurs i cls.
+
+Lemma lit_value_used : forall vs v s x vs' i,
+  wf_vars vs -> tseitin_name v = false -> lit_value vs v s = (x, vs') ->
+  nvars vs < i <= nvars vs' -> Z.abs x = i.
+Proof.
+  intros vs v s x vs' i W Hv E Hi.
+  destruct (lit_value_spec _ _ _ _ _ W Hv E) as [j [Ex [G [W1 [X1 [Hsame|Hnew]]]]]].
+  - subst vs'. lia.
+  - destruct Hnew as [_ [Ej [Ea _]]].
+    assert (nvars vs' = nvars vs + 1).
+    { unfold nvars, tbl_len. rewrite Ea, app_length. simpl. lia. }
+    assert (0 <= nvars vs) by (unfold nvars, tbl_len; lia).
+    subst x. destruct s; lia.
+Qed.
+
+Lemma and_used : forall l, Forall used_ok l -> used_ok (FAnd l).
+Proof.
+  induction l as [|x l IH]; intros HF vs cls vs' Hfv W H i Hi.
+  - simpl in H. injection H as <- <-. lia.
+  - inversion HF as [|x' l' Hx Hl]; subst. rewrite cnf_rec_and_cons in H.
+    destruct (cnf_rec x vs) as [c1 vs1] eqn:E1.
+    destruct (cnf_rec (FAnd l) vs1) as [c2 vs2] eqn:E2. injection H as <- <-.
+    assert (Fx : fv_ok x) by (apply (fv_ok_and_in _ _ Hfv); left; reflexivity).
+    assert (Fl : fv_ok (FAnd l)).
+    { apply fv_ok_and_of. intros y Hy. apply (fv_ok_and_in _ _ Hfv). right. exact Hy. }
+    destruct (cnf_rec_struct x _ _ _ Fx W E1) as [W1 _].
+    destruct (Z_le_gt_dec i (nvars vs1)) as [L|L].
+    + apply occurs_app_l. apply (Hx _ _ _ Fx W E1). lia.
+    + apply occurs_app_r. apply (IH Hl _ _ _ Fl W1 E2). lia.
+Qed.
+
+Lemma or_thread_used : forall l, Forall used_ok l ->
+  forall vs res lits vs', fv_ok (FOr l) -> wf_vars vs ->
+  or_thread cnf_rec l vs = (res, lits, vs') ->
+  forall i, nvars vs < i <= nvars vs' -> occurs i (res ++ [lits]).
+Proof.
+  induction l as [|sub l IH]; intros HF vs res lits vs' Hfv W H i Hi.
+  - simpl in H. injection H as <- <- <-. lia.
+  - inversion HF as [|x' l' Hx HFl]; subst.
+    assert (Fl : fv_ok (FOr l)).
+    { apply fv_ok_or_of. intros y Hy. apply (fv_ok_or_in _ _ Hfv). right. exact Hy. }
+    assert (Fs : fv_ok sub) by (apply (fv_ok_or_in _ _ Hfv); left; reflexivity).
+    assert (Hcons : forall y res0 lits0, occurs i (res0 ++ [lits0]) -> occurs i (res0 ++ [y :: lits0])).
+    { intros y res0 lits0 [c [l0 [H1 [H2 H3]]]]. apply in_app_or in H1. destruct H1 as [H1|[<-|[]]].
+      - exists c, l0. split; [apply in_or_app; auto|auto].
+      - exists (y :: lits0), l0. split; [apply in_or_app; right; left; reflexivity|].
+        split; [right; exact H2|exact H3]. }
+    destruct sub as [v|v s|g|l2|l2| |]; try (exact (IH HFl _ _ _ _ Fl W H i Hi)).
+    + rewrite or_thread_lit in H. destruct (lit_value vs v s) as [x vs1] eqn:E1.
+      destruct (or_thread cnf_rec l vs1) as [[res2 lits2] vs2] eqn:E2. injection H as <- <- <-.
+      assert (Hv : tseitin_name v = false) by (apply Fs; simpl; auto).
+      destruct (lit_value_spec _ _ _ _ _ W Hv E1) as [j [_ [_ [W1 _]]]].
+      destruct (Z_le_gt_dec i (nvars vs1)) as [L|L].
+      * exists (x :: lits2), x. split; [apply in_or_app; right; left; reflexivity|].
+        split; [left; reflexivity|]. apply (lit_value_used _ _ _ _ _ i W Hv E1). lia.
+      * apply Hcons. apply (IH HFl _ _ _ _ Fl W1 E2). lia.
+    + rewrite or_thread_and in H. destruct (new_dummy vs) as [d vs1] eqn:E1.
+      destruct (cnf_rec (FAnd l2) vs1) as [c vs2] eqn:E2.
+      destruct (or_thread cnf_rec l vs2) as [[res3 lits3] vs3] eqn:E3. injection H as <- <- <-.
+      destruct (new_dummy_spec _ _ _ W E1) as [Ed [W1 [_ [N1 _]]]].
+      destruct (cnf_rec_struct _ _ _ _ Fs W1 E2) as [W2 _].
+      assert (0 <= nvars vs) by (unfold nvars, tbl_len; lia).
+      destruct (Z_le_gt_dec i (nvars vs1)) as [L|L].
+      * exists (d :: lits3), d. split; [apply in_or_app; right; left; reflexivity|].
+        split; [left; reflexivity|lia].
+      * destruct (Z_le_gt_dec i (nvars vs2)) as [L2|L2].
+        -- rewrite <- List.app_assoc. apply occurs_app_l. apply occurs_guard.
+           apply (Hx _ _ _ Fs W1 E2). lia.
+        -- rewrite <- List.app_assoc. apply occurs_app_r. apply Hcons.
+           apply (IH HFl _ _ _ _ Fl W2 E3). lia.
+Qed.
+
+Lemma cnf_rec_used : forall g, used_ok g.
+Proof.
+  induction g as [v|v s|f IH|l IH|l IH| |] using form_ind'.
+  - intros vs cls vs' _ W H i Hi. simpl in H. injection H as <- <-. lia.
+  - intros vs cls vs' Hfv W H i Hi. simpl in H.
+    destruct (lit_value vs v s) as [x vs1] eqn:E1. injection H as <- <-.
+    assert (Hv : tseitin_name v = false) by (apply Hfv; simpl; auto).
+    exists [x], x. split; [left; reflexivity|split; [left; reflexivity|]].
+    apply (lit_value_used _ _ _ _ _ i W Hv E1 Hi).
+  - intros vs cls vs' _ W H i Hi. simpl in H. injection H as <- <-. lia.
+  - apply and_used. exact IH.
+  - intros vs cls vs' Hfv W H i Hi. cbn [cnf_rec] in H.
+    destruct (or_thread cnf_rec l vs) as [[res lits] vs1] eqn:E. injection H as <- <-.
+    apply (or_thread_used l IH _ _ _ _ Hfv W E i Hi).
+  - intros vs cls vs' _ W H i Hi. simpl in H. injection H as <- <-. lia.
+  - intros vs cls vs' _ W H i Hi. simpl in H. injection H as <- <-. lia.
+Qed.
+
+Theorem as_cnf_used : forall f, fv_ok f -> forall i,
+  1 <= i <= Z.of_nat (List.length (v_all (c_vars (as_cnf f)))) ->
+  exists c l, In c (c_clauses (as_cnf f)) /\ In l c /\ Z.abs l = i.
+Proof.
+  intros f Hf i Hi.
+  apply (cnf_rec_used (nnf f) _ _ _ (fv_ok_nnf _ Hf) wf_empty (as_cnf_eq f)).
+  unfold nvars, tbl_len. simpl. lia.
+Qed.
+
+(* ------------------------------------------------------------------ *)
+(* Final statements and findings.                                       *)
+
+
+(* ---- statements with the boolean side condition of the model ---- *)
+
+Theorem cnf_sound_formb : forall f, fv_okb f = true -> forall m dflt,
+  sat_cnf m (c_clauses (as_cnf f)) = true -> eval (env_of (as_cnf f) m dflt) f = true.
+Proof. intros f H. apply cnf_sound_form. apply fv_okb_ok. exact H. Qed.
+
+Theorem cnf_complete_formb : forall f, fv_okb f = true -> forall env, eval env f = true ->
+  exists m, List.length m = List.length (v_all (c_vars (as_cnf f))) /\
+            sat_cnf m (c_clauses (as_cnf f)) = true /\
+            forall v i, tbl_get (v_all (c_vars (as_cnf f))) v = Some i ->
+                        tseitin_name v = false -> var_val m i = env v.
+Proof. intros f H. apply cnf_complete_form. apply fv_okb_ok. exact H. Qed.
+
+Theorem fv_okb_desugar : forall s, fv_okb (desugar s) = true.
+Proof. intros s. apply fv_okb_ok. apply fv_ok_desugar. Qed.
+
+Theorem solve_ref_correct : forall s,
+  match solve_ref (desugar s) with
+  | None => clash_free s = true -> forall env, seval env s = false
+  | Some mp => positive_unique s = true -> names_distinct (desugar s) = true ->
+               forall dflt, seval (complete mp dflt) s = true
+  end.
+Proof. intros s. apply (solve_correct ref_solve ref_solver_ok). Qed.
+
+Theorem dimacs_wellformedb : forall f, fv_okb f = true ->
+  let d := dimacs_export f in
+  d_nbvars d = Z.of_nat (List.length (v_all (c_vars (as_cnf f)))) /\
+  d_nbclauses d = Z.of_nat (List.length (d_clauses d)) /\
+  d_clauses d = c_clauses (as_cnf f) /\
+  (forall c l, In c (d_clauses d) -> In l c -> 1 <= Z.abs l <= d_nbvars d) /\
+  NoDup (map fst (d_names d)) /\
+  NoDup (map snd (d_names d)) /\
+  (forall n i, In (n, i) (d_names d) ->
+     1 <= i <= d_nbvars d /\ tbl_get (v_all (c_vars (as_cnf f))) (pb_var n) = Some i) /\
+  (forall n, In n (map fst (d_names d)) <-> In (pb_var n) (fvars (nnf f))) /\
+  Sorted (fun a b => String.leb a b = true) (map fst (d_names d)).
+Proof. intros f H. apply dimacs_wellformed. apply fv_okb_ok. exact H. Qed.
+
+Theorem as_cnf_usedb : forall f, fv_okb f = true -> forall i,
+  1 <= i <= Z.of_nat (List.length (v_all (c_vars (as_cnf f)))) ->
+  exists c l, In c (c_clauses (as_cnf f)) /\ In l c /\ Z.abs l = i.
+Proof. intros f H. apply as_cnf_used. apply fv_okb_ok. exact H. Qed.
+
+(* ---- findings ---- *)
+Local Open Scope string_scope.
+
+(* D15: a negated exactly-one group of more than 4 names.  The formula says
+   "a and nothing else, and not exactly one of a..e": unsatisfiable, but
+   Solve answers with an assignment. *)
+Definition neg_unique_witness : sform :=
+  SAnd [SVar "a"; SNot (SVar "b"); SNot (SVar "c"); SNot (SVar "d"); SNot (SVar "e");
+        SNot (SUnique ["a"; "b"; "c"; "d"; "e"])].
+
+Theorem neg_unique_refuted : exists s mp,
+  clash_free s = true /\ names_distinct (desugar s) = true /\
+  positive_unique s = false /\
+  solve_ref (desugar s) = Some mp /\
+  seval (complete mp (fun _ => false)) s = false /\
+  (forall env, seval env s = false).
+Proof.
+  exists neg_unique_witness.
+  eexists. split; [vm_compute; reflexivity|]. split; [vm_compute; reflexivity|].
+  split; [vm_compute; reflexivity|]. split; [vm_compute; reflexivity|].
+  split; [vm_compute; reflexivity|].
+  intros env. cbn [seval neg_unique_witness forallb map].
+  destruct (env "a"), (env "b"), (env "c"), (env "d"), (env "e"); reflexivity.
+Qed.
+
+(* The dummies of a group are named from the names joined with "-": two
+   different groups can share them, and the conjunction becomes unsatisfiable. *)
+Definition clash_witness : sform :=
+  SAnd [SUnique ["a-b"; "c"; "d"; "e"; "f"]; SUnique ["a"; "b-c"; "d"; "e"; "f"];
+        SVar "a-b"; SVar "b-c"].
+
+Theorem unique_clash_refuted : exists s env,
+  positive_unique s = true /\ names_distinct (desugar s) = true /\
+  clash_free s = false /\
+  solve_ref (desugar s) = None /\ seval env s = true.
+Proof.
+  exists clash_witness.
+  exists (fun n => String.eqb n "a-b" || String.eqb n "b-c").
+  repeat split; vm_compute; reflexivity.
+Qed.
+
+(* A variable of the user can have the name of a dummy: the result map, keyed
+   by name, then receives two bindings for that name (in Go the last one
+   written wins, in map iteration order). *)
+Definition name_clash_witness : sform :=
+  SAnd [SVar "line-0-a-b-c-d-e"; SVar "d"; SUnique ["a"; "b"; "c"; "d"; "e"]].
+
+Theorem name_clash_refuted : exists s mp n,
+  clash_free s = true /\ positive_unique s = true /\
+  names_distinct (desugar s) = false /\
+  solve_ref (desugar s) = Some mp /\ In (n, true) mp /\ In (n, false) mp /\
+  (forall env, env n = false -> seval env s = false).
+Proof.
+  exists name_clash_witness. eexists. exists "line-0-a-b-c-d-e".
+  split; [vm_compute; reflexivity|]. split; [vm_compute; reflexivity|].
+  split; [vm_compute; reflexivity|]. split; [vm_compute; reflexivity|].
+  split; [vm_compute; tauto|]. split; [vm_compute; tauto|].
+  intros env H. cbn [seval name_clash_witness forallb]. rewrite H. reflexivity.
 Qed.
